@@ -102,6 +102,52 @@ pub fn exec(w: &mut World, op: &Value) -> bool {
                 };
             }) && ok
         }
+        "new_set" => {
+            let o = s(op, "o").to_string();
+            w.edit_root(Via::MutateRoot, move |st, mc, root| {
+                st.survey(mc, root, None);
+                st.new_set(mc, root, &o);
+            })
+        }
+        "remove_set" => {
+            let d = s(op, "d").to_string();
+            let mut ok = true;
+            let okr = &mut ok;
+            w.edit_root(Via::MutateRoot, move |st, mc, root| {
+                st.survey(mc, root, None);
+                *okr = st.remove_set(root, &d);
+            }) && ok
+        }
+        "stash" => {
+            let (d, c) = (s(op, "d").to_string(), s(op, "c").to_string());
+            let hid = op.get("hid").and_then(|v| v.as_u64()).unwrap_or(0) as u32;
+            let mut ok = true;
+            let okr = &mut ok;
+            w.mutate("stash", move |st, mc, root| {
+                let found = st.survey(mc, root, None);
+                let Some((cs, cp)) = st.serial_of(&c).and_then(|x| found.get(&x).map(|q| (x, *q))) else {
+                    *okr = false;
+                    st.diverged = true;
+                    return;
+                };
+                *okr = st.stash(mc, root, &d, cs, cp, hid);
+            }) && ok
+        }
+        "clone_handle" => {
+            let (h1, h2) = (op.get("hid").and_then(|v| v.as_u64()).unwrap_or(0) as u32, op.get("hid2").and_then(|v| v.as_u64()).unwrap_or(0) as u32);
+            let r = crate::world::clone_handle(h1, h2);
+            if w.alive() {
+                w.observe();
+            }
+            r
+        }
+        "drop_handle" => {
+            let r = crate::world::drop_handle(op.get("hid").and_then(|v| v.as_u64()).unwrap_or(0) as u32);
+            if w.alive() {
+                w.observe();
+            }
+            r
+        }
         "upgrade_store" => {
             // upgrade the weak pointer h -> t; if the upgrade succeeds, p adopts the result
             let (h, t, p, path) = (s(op, "h").to_string(), s(op, "t").to_string(), s(op, "p").to_string(), s(op, "path").to_string());
@@ -284,6 +330,12 @@ pub fn snapshot(w: &World) -> Value {
 /// Compare with the model's `final` record; returns the names of differing fields.
 pub fn diff_final(real: &Value, model: &Value) -> Vec<String> {
     let mut d = Vec::new();
+    if model.get("obs").and_then(|v| v.as_str()) == Some("Dropped") {
+        if real.get("phase").and_then(|v| v.as_str()) != Some("Dropped") {
+            d.push("phase".to_string());
+        }
+        return d;
+    }
     if model.get("phase").and_then(|v| v.as_str()) == Some("Dropped") {
         if real.get("phase").and_then(|v| v.as_str()) != Some("Dropped") {
             d.push("phase".to_string());
@@ -319,25 +371,37 @@ pub struct ReplayResult {
 }
 
 /// Replay one behaviour with the given epilogue ("c02": two finish_cycle calls, observe, drop;
-/// "drop": drop the arena right where the behaviour ended).
+/// "drop": drop the arena right where the behaviour ended).  Behaviours with `arenas: 2` run on
+/// two arenas of the same thread; after every operation on one the OTHER is re-observed (C20).
 pub fn replay(beh: &Value, beh_id: usize, epilogue: &str) -> ReplayResult {
+    crate::world::clear_handles();
     ALLOC.reset();
     crate::world::AUX_SERIAL.store(100_000, std::sync::atomic::Ordering::Relaxed);
     ev!("{{\"ev\":\"reset\",\"beh\":{},\"epilogue\":\"{}\"}}", beh_id, epilogue);
-    let mut w = World::new(0, 1);
+    let n_arenas = beh.get("arenas").and_then(|v| v.as_u64()).unwrap_or(1) as usize;
+    let mut ws: Vec<World> = (0..n_arenas).map(|i| World::new(i as u32, 1 + 10_000 * i as u32)).collect();
     let mut skipped = 0;
     let mut debt_drift = None;
     if let Some(p) = beh.get("pacing") {
         let q = |k: &str| p.get(k).and_then(|v| v.as_i64()).unwrap_or(0);
-        w.set_pacing_q(q("sf"), q("ms"), q("mf"), q("tf"), q("kf"), q("df"), q("ff"));
+        ws[0].set_pacing_q(q("sf"), q("ms"), q("mf"), q("tf"), q("kf"), q("df"), q("ff"));
+    }
+    if n_arenas == 2 {
+        // different pacing per arena
+        ws[1].set_pacing_q(16, 1, 0, 0, 0, 0, 0);
     }
     let ops = beh.get("ops").and_then(|v| v.as_array()).cloned().unwrap_or_default();
     for (k, op) in ops.iter().enumerate() {
-        if !exec(&mut w, op) {
+        let a = op.get("a").and_then(|v| v.as_u64()).unwrap_or(0) as usize;
+        if !exec(&mut ws[a], op) {
             skipped += 1;
+        }
+        if n_arenas == 2 && ws[1 - a].alive() {
+            ws[1 - a].observe();
         }
         // pacing configurations: the model predicts the debt (x16) and the count after every operation
         if let (Some(d), Some(n)) = (op.get("d").and_then(|v| v.as_i64()), op.get("n").and_then(|v| v.as_i64())) {
+            let w = &ws[a];
             if debt_drift.is_none() && w.alive() {
                 let (rd, rn) = (w.debt_q_pub(), w.metrics.total_gc_count() as i64);
                 if rd != d {
@@ -348,25 +412,38 @@ pub fn replay(beh: &Value, beh_id: usize, epilogue: &str) -> ReplayResult {
             }
         }
     }
-    let real_final = snapshot(&w);
+    let real_final = if n_arenas == 1 { snapshot(&ws[0]) } else { Value::Array(ws.iter().map(snapshot).collect()) };
     let drift = match beh.get("final") {
+        Some(Value::Array(ms)) => {
+            let mut d = Vec::new();
+            for (i, m) in ms.iter().enumerate() {
+                for f in diff_final(&real_final[i], m) {
+                    d.push(format!("{i}.{f}"));
+                }
+            }
+            d
+        }
         Some(m) => diff_final(&real_final, m),
         None => vec![],
     };
-    match epilogue {
-        "c02" => {
-            if w.alive() {
-                w.call("finish_cycle", 0, "P1", false, false, None);
-                w.call("finish_cycle", 0, "P1", false, false, None);
-                w.observe();
-                ev!("{{\"ev\":\"c02_check\",\"a\":0,\"count\":{},\"phase\":\"{}\"}}", w.metrics.total_gc_count(), w.phase());
-            }
-            w.drop_arena();
-        }
-        _ => {
-            w.drop_arena();
+    for w in ws.iter_mut() {
+        if epilogue == "c02" && w.alive() {
+            w.call("finish_cycle", 0, "P1", false, false, None);
+            w.call("finish_cycle", 0, "P1", false, false, None);
+            w.observe();
+            ev!("{{\"ev\":\"c02_check\",\"a\":{},\"count\":{},\"phase\":\"{}\"}}", w.st.id, w.metrics.total_gc_count(), w.phase());
         }
     }
+    // arena 1 first: dropping one arena while the other still lives
+    for w in ws.iter_mut().rev() {
+        w.drop_arena();
+    }
+    // handles that outlived their arena are dropped now: must be harmless
+    let left: Vec<u32> = crate::world::HANDLES.with(|hs| hs.borrow().keys().copied().collect());
+    for hid in left {
+        crate::world::drop_handle(hid);
+    }
     ev!("{{\"ev\":\"end\",\"beh\":{},\"outstanding\":{},\"overflow\":{}}}", beh_id, ALLOC.outstanding(), ALLOC.overflowed());
-    ReplayResult { debt_drift, ops_done: ops.len(), skipped, diverged: w.st.diverged, drift, real_final }
+    let diverged = ws.iter().any(|w| w.st.diverged);
+    ReplayResult { debt_drift, ops_done: ops.len(), skipped, diverged, drift, real_final }
 }
